@@ -1,7 +1,7 @@
 (* C19 - results do not depend on whether plain char is signed (partial: see DESIGN.md).
    The only place where the model looks at the sign of a char is the final comparison of the
    four comparers; the search result is independent of it for every token. *)
-From PS Require Import Base LangDefs SpecDefs LangProofs LangData.
+From PS Require Import Base LangDefs SpecDefs LangProofs LangData ApiDefs RefineProofs SgnProofs.
 From PS.Gen Require Import Langs.
 
 Theorem C19_search_sgn_independent : forall L key, In L langs -> no_nul key ->
@@ -12,3 +12,13 @@ Print Assumptions C19_search_sgn_independent.
 Theorem C19_sorted_both : forallb (lang_ok true) langs = true /\ forallb (lang_ok false) langs = true.
 Proof. exact (conj langs_ok_signed langs_ok_unsigned). Qed.
 Print Assumptions C19_sorted_both.
+
+(* every public function, every well-formed call, every related state: identical state, output and
+   trace for signed and unsigned plain char *)
+Theorem C19_step : forall cs a o, R cs a -> op_ok o -> step true langs cs o = step false langs cs o.
+Proof. exact step_sgn_independent. Qed.
+Print Assumptions C19_step.
+
+Theorem C19_run : forall ops, Forall op_ok ops -> run true langs init_state ops = run false langs init_state ops.
+Proof. exact run_sgn_independent. Qed.
+Print Assumptions C19_run.
